@@ -1,0 +1,11 @@
+//go:build verif
+
+package filesystem
+
+// Declarations used by the scanner contracts (properties C13, C12).
+// Comment-only file: compiled only under the "verif" build tag, contains no
+// code. The "//@" lines are read by govc.
+
+// Metadata objects are built by struct literals (Open, ReadContentMetadata,
+// ReadContents) and never written afterwards.
+//@ immutable Metadata
